@@ -338,7 +338,12 @@ class FromQRun(SourceSeg):
 
     def clauses(self):
         return [Clause('C18.one_poll_per_cycle', ['C18'], when='normal', text='polls <= 1 and emits <= polls',
-                       note='a cycle takes at most one item; whether another cycle begins is decided by run() looking at `stopped`')]
+                       note='a cycle takes at most one item; whether another cycle begins is decided by run() looking at `stopped`'),
+                Clause('C03.a_cycle_that_emits_suspends_until_downstream_is_done', ['C03', 'C18'], when='return', text='emits == 0',
+                       note='the item is pushed with emit(asynchronous=True) and that awaitable is awaited: the source does not take '
+                            'the next item while a consumer (a full buffer, a slow sink) is still busy with this one'),
+                Clause('C03.suspends_on_the_emission_or_on_the_idle_sleep', ['C03', 'C18'], when='yield',
+                       text='(emits == 1 and len(sleeps) == 0) or (emits == 0 and len(sleeps) == 1)')]
 
 
 class FromQRunResumed(FromQRun):
@@ -364,7 +369,22 @@ SUBCLASS_LIFECYCLE += [_per_source(ServerSourceStop, c) for c in ('from_tcp', 'f
 for _c in SUBCLASS_LIFECYCLE:
     globals()[_c.__name__] = _c
 
-ALL = SUBCLASS_LIFECYCLE + [FromQRun, FromQRunResumed, SourceInit, SourceStart, SourceStop, SourceRunHead, SourceRunAfterCycle, FromIterableRun, FromIterableRunResumed,
+class FromQRunAfterSleep(FromQRunResumed):
+    """resumed after the idle sleep (inside the `except queue.Empty` handler): the cycle is over"""
+    start = 2
+    name = 'from_q._run@2'
+
+
+class FromPeriodicRunEnd(FromPeriodicRun):
+    start = 2
+    name = 'from_periodic._run@2'
+
+    def clauses(self):
+        return [Clause('C18.cycle_ends_after_the_sleep', ['C18'], when='normal', text='emitted == [] and len(sleeps) == 0'),
+                Clause('C18.cycle_ends_by_returning', ['C18'], when='yield', text='False')]
+
+
+ALL = SUBCLASS_LIFECYCLE + [FromQRunAfterSleep, FromPeriodicRunEnd, FromQRun, FromQRunResumed, SourceInit, SourceStart, SourceStop, SourceRunHead, SourceRunAfterCycle, FromIterableRun, FromIterableRunResumed,
        FromPeriodicRun, FromPeriodicRunSleep]
 
 
@@ -490,3 +510,66 @@ class TcpHandlerClosed(TcpHandler):
 
 ALL_TCP = [TcpHandler, TcpHandlerResumed, TcpHandlerClosed]
 ALL = ALL + ALL_TCP
+
+
+# --------------------------------------------------------------------------- from_process.run: the read / emit loop
+class ProcessRun(SourceSeg):
+    """from_process.run resumed with a line read from the child: the line is emitted (the read in progress when stop() was called may
+    finish), and a stop request is never withdrawn by the loop itself; after the emission a new read begins only while the source is
+    running."""
+    cls = 'from_process'
+    method = 'run'
+    start = 2
+    props = ['C18']
+    reentrancy_generic = False
+    assumptions = SourceSeg.assumptions + (
+        'asyncio subprocess: stdout.readuntil is an opaque awaitable yielding the next line or raising IncompleteReadError; '
+        'returncode is None while the child runs (trusted)', 'the set-up of the child process (segments 0 and 1) is not under contract')
+
+    def make_self(self, I):
+        f = SourceSeg.make_self(self, I)
+        f['with_end'] = VBool(z3.Bool('with_end'))
+        I.st.ghost['reads'] = VInt(0)
+        return f
+
+    def make_locals(self, I, selfv):
+        proc = I.st.new_obj('Process', {'returncode': VElem(z3.Const('returncode', sym.Elem)),
+                                        'stdout': VRef(z3.Const('child_stdout', sym.Obj), 'StreamReader')})
+        loc = {'self': selfv, 'process': proc}
+        if self.start == 3:
+            loc['out'] = VElem(z3.Const('line_prev', sym.Elem))
+        I.st.ghost['line'] = VElem(z3.Const('line', sym.Elem))
+        return loc
+
+    def resume(self, I, loc):
+        return Resume(I.st.ghost['line']) if self.start == 2 else Resume(NONE)
+
+    def summaries(self):
+        d = SourceSeg.summaries(self)
+
+        def readuntil(I, recv, args, kwargs):
+            g = I.st.ghost
+            g['reads'] = VInt(g['reads'].t + 1)
+            return VAw(z3.Const(sym.fresh_name('readline'), sym.Aw))
+        d['StreamReader.readuntil'] = readuntil
+        d['Process.terminate'] = lambda I, recv, args, kwargs: NONE
+        d['Process.wait'] = lambda I, recv, args, kwargs: VAw(z3.Const(sym.fresh_name('proc_wait'), sym.Aw))
+        return d
+
+    def clauses(self):
+        if self.start == 2:
+            return [Clause('C18.a_completed_read_is_emitted_and_never_withdraws_a_stop_request', ['C18'], when='yield:3',
+                           text='emitted == [line] and implies(old(self.stopped), self.stopped) and reads == 0',
+                           note='stop() during the read: the line in flight is delivered, the source stays stopped'),
+                    Clause('C18.no_other_outcome', ['C18'], when='return', text='False')]
+        return [Clause('C18.a_new_read_begins_only_while_the_source_is_running', ['C18'], when='yield:2',
+                       text='not old(self.stopped) and reads == 1 and emitted == []'),
+                Clause('C18.the_loop_ends_when_the_source_is_stopped', ['C18'], when='yield:4', text='old(self.stopped) and reads == 0 and emitted == []'),
+                Clause('C18.the_loop_ends_when_the_source_is_stopped', ['C18'], when='return', text='old(self.stopped) and reads == 0 and emitted == []')]
+
+
+class ProcessRunAfterEmission(ProcessRun):
+    start = 3
+
+
+ALL = ALL + [ProcessRun, ProcessRunAfterEmission]
